@@ -60,6 +60,14 @@ class Prop(BaseProp):
         conv = lambda b: pyjet.frac_of_bits(b, w)
         ref, scale = self.reference(case, conv)
         exact = case.tag == 'grid'
+        if exact and w == 32:
+            # binary32 has 24 significant bits: a part of order k of a quotient / power is a sum of products of up to k+1 seven-bit grid values,
+            # which fits only for first-order types (and always for the linear operations and products of second order)
+            order = max(len(S) for S in ref.fam)
+            linear = case.op.split('_')[0] in ('add', 'sub', 'neg')
+            product = case.op.split('_')[0] == 'mul' and order <= 2
+            if not (order <= 1 or linear or product):
+                exact = False
         for S in ref.fam:
             b = pyjet.part_bits(impl, case.ty, S)
             if b == vlib.NAN:
